@@ -10,8 +10,8 @@
 (* directions: the window must be a window ON THE CIRCLE.                  *)
 (*                                                                         *)
 (* Directions are integers in HALF degrees (0..719) so that observations   *)
-(* on and between the one-degree bins are both present; hw2 is the half    *)
-(* window in half degrees.                                                 *)
+(* on and between the one-degree bins are both present; the half window is *)
+(* given in half degrees too (22.5 degrees = 45).                          *)
 (*                                                                         *)
 (* Deviation switch  WrapStyle: "code" | "none" (negative control: no      *)
 (* wrapping across north) | "one_sided" (only directions above 270 are     *)
@@ -19,7 +19,7 @@
 (***************************************************************************)
 EXTENDS Integers, Sequences, FiniteSets, TLC, Json
 
-CONSTANTS HalfWindows, WrapStyle, Rotations     \* half windows in whole degrees; rotations in whole degrees
+CONSTANTS HalfWindows, WrapStyle, Rotations     \* half windows in HALF degrees; rotations in whole degrees
 
 Dirs == 0..719
 
@@ -29,9 +29,9 @@ Wrapped(kk, w) ==
     ELSE IF kk > 270 /\ WrapStyle = "code" THEN (IF w < 180 THEN w + 720 ELSE w)             \* wd_wrapped[wd < 90] = wd[wd < 90] + 360
     ELSE w
 Idx1(kk, w) == w >= 2 * kk /\ w < 2 * (kk + 1)
-Idx2(kk, w, hw) == Wrapped(kk, w) >= 2 * (kk - hw) /\ Wrapped(kk, w) < 2 * (kk + 1 + hw)
+Idx2(kk, w, hw) == Wrapped(kk, w) >= 2 * kk - hw /\ Wrapped(kk, w) < 2 * (kk + 1) + hw
 \* the window on the circle
-CircIn(kk, w, hw) == ((w - 2 * kk + 2 * hw) % 720) < 2 * (2 * hw + 1)
+CircIn(kk, w, hw) == ((w - 2 * kk + hw) % 720) < 2 * hw + 2
 
 VARIABLES vkk, vhw, vwin      \* loop variable, half window, the window of this bin (set by the loop body)
 zvars == <<vkk, vhw, vwin>>
